@@ -136,7 +136,7 @@ def run(tier):
                            % (p, E.exit_description(f, esc)))
 
     # R6: disposing of a run empties the run-scoped stacks
-    ck.rule("R6.abort-clears-stacks", "the function that disposes of an active run clears the call stack and the scope guards the run pushed", floor=2)
+    ck.rule("R6.abort-clears-stacks", "the function that disposes of an active run clears the call stack, the scope guards the run pushed and its export table", floor=3)
     disposers = [f for f in fx.fns.values() if not f.closure and f.path.startswith("interpreter::Interpreter::") and
                  any(st_[0] == "a" and F.place_fields(st_[1]) and F.place_fields(st_[1])[-1][2] == "active_vm" and
                      ((st_[2][0] == "agg" and st_[2][1].get("v") == "None") or
@@ -150,22 +150,38 @@ def run(tier):
         cleared = set()
         for bi, t in f.calls():
             d = t[1].get("d") or ""
-            if d.endswith(("Vec::<T, A>::clear", "Vec::<T, A>::truncate", "Vec::<T, A>::drain")) and t[2] and t[2][0][0] in ("c", "m"):
+            if d.endswith(("::clear", "Vec::<T, A>::truncate", "::drain")) and t[2] and t[2][0][0] in ("c", "m"):
                 fl = E.field_of_ref(f, t[2][0][1][0])
                 if fl and fl[0] == INTERP:
                     cleared.add(fl[2])
         for st_ in [st_ for bl in f.blocks for st_ in bl["s"]]:
-            if st_[0] == "a" and F.place_fields(st_[1]) and F.place_fields(st_[1])[-1][0] == INTERP and F.place_fields(st_[1])[-1][2] in ("call_stack", "env_guards"):
+            if st_[0] == "a" and F.place_fields(st_[1]) and F.place_fields(st_[1])[-1][0] == INTERP and F.place_fields(st_[1])[-1][2] in ("call_stack", "env_guards", "exports"):
                 cleared.add(F.place_fields(st_[1])[-1][2])
-        for fld in ("call_stack", "env_guards"):
+        for fld in ("call_stack", "env_guards", "exports"):
             ok = fld in cleared
             ck.instance("R6.abort-clears-stacks", "%s clears %s" % (f.path, fld), F.short_span(f.span), ok=ok)
             if not ok:
                 ck.finding("R6.abort-clears-stacks", "R6.abort-clears-stacks/%s/%s" % (f.path, fld), F.short_span(f.span),
                            "`%s` disposes of a run the host stopped stepping but leaves `%s` as the run left it: a run abandoned inside calls and blocks "
                            "keeps its %s (call_depth() stays above 0 / the objects of its scopes stay rooted: +6 live objects per abandoned run)"
-                           % (f.path, fld, "call-stack entries" if fld == "call_stack" else "scope guards"))
+                           % (f.path, fld, "call-stack entries" if fld == "call_stack" else "scope guards" if fld == "env_guards" else
+                              "exports (the export table is drained only when a run is finalised: `export const stale = 1; throw ..` leaves `stale` for the next module's namespace)"))
 
+    # R6b: a new main run starts with an empty export table (eval() has no disposer of its own: its failing exits just return)
+    ck.rule("R6b.run-starts-clean", "every public entry that parses and starts a main program clears Interpreter.exports before anything can fail", floor=2)
+    for p, f in sorted(fx.fns.items()):
+        if f.derived or f.closure or not p.startswith("interpreter::Interpreter::"):
+            continue
+        parses = [bi for bi, t in f.calls() if (t[1].get("d") or "").endswith("Parser::<'a>::parse_program")]
+        if not parses or not str(f.vis if hasattr(f, "vis") else "").startswith("pub") and p.split("::")[-1] not in ("eval", "prepare"):
+            continue
+        clears = [t[4] for bi, t in f.calls() if (t[1].get("d") or "").endswith(("::clear", "::drain")) and t[2] and t[2][0][0] in ("c", "m")
+                  and (E.field_of_ref(f, t[2][0][1][0]) or (None, None, None))[2] == "exports" and t[4] is not None and t[4] >= 0]
+        ok = any(all(f.dominates(c0, pb) for pb in parses) for c0 in clears)
+        ck.instance("R6b.run-starts-clean", p, F.short_span(f.span), ok=ok)
+        if not ok:
+            ck.finding("R6b.run-starts-clean", "R6b.run-starts-clean/%s" % p, F.short_span(f.span),
+                       "`%s` starts a main program without emptying the export table: what a failed or abandoned earlier run exported shows up in this module's namespace" % p)
     # R3: step() error arm
     # R3b: whoever takes the saved environment out of its slot puts it back whenever there is one
     ck.rule("R3b.slot-restore", "a function that takes Interpreter.active_saved_env restores Interpreter.env on every path on which the slot held a value", floor=1)
